@@ -13,7 +13,7 @@ COMMON = dict(harness='C12/h_fanout.cpp', entry='harness_fanout', cxxflags=['-I/
               stubs=['TaskInterface7requestERKNS0_7KeyTypeEm$=stub_request', '^_ZN4llvm3sys4path6appendERNS_15SmallVectorImplIcEERKNS_5TwineES7_S7_S7_$=stub_path_append'],
               noinline=['SignatureTask12provideValue'], expect_functions=['SignatureTask12provideValue'],
               stub_virtual=['SignatureTask(5start|15inputsAvailable|17providePriorValue)', '^_ZN7llbuild4core4Task'], allow_external=['^_ZTV'],
-              assert_external=['.'], unwind=34, copy_unwind=100, timeout=600, cbmc_flags=['--object-bits', '10'])
+              assert_external=['.'], unwind=34, unwind_loops=[('harness_fanout', 84)], copy_unwind=100, timeout=600, cbmc_flags=['--object-bits', '10'])
 OBLIGATIONS = [
     dict(COMMON, name='G3.tree-recursion', params_quick=[{'VF_STRUCT': 0}]),
     dict(COMMON, name='G3.structure-recursion', params_quick=[{'VF_STRUCT': 1}]),
